@@ -30,7 +30,7 @@ func init() {
 		Needs: []string{"owsim-race"},
 		Workloads: []core.Workload{
 			{Name: "race", Variant: "race", N: core.Tiered(41*3*2, 41*3*50), Run: c05Race, Env: []string{"GORACE=halt_on_error=1 exitcode=66"}},
-			{Name: "sched", Variant: "plain", N: core.Tiered(41*2, 41*30), Run: c05Sched},
+			{Name: "sched", Variant: "plain", N: core.Tiered(41*2, 41*60), Run: c05Sched},
 			{Name: "owsim-race", Variant: "plain", N: core.Tiered(12, 150), Run: c05OwsimRace, TimeoutS: 300, MaxProcs: 8},
 		},
 		RequireTags: func(string) []string { return []string{"sched:orders>=3", "race:N32"} },
